@@ -6,6 +6,6 @@ CONSTANTS
   Strides = {0, 1, 2, 3, 4, 5, 8, 9, 12}
   MaxOps = 1
   KeepHist = FALSE
-INVARIANTS Involution InPlaceSame FileOrder
+INVARIANTS Involution InPlaceSame GatherSame FileOrder
 CONSTRAINT Bound
 CHECK_DEADLOCK FALSE
